@@ -1,6 +1,8 @@
 package c15
 
 import (
+	"math"
+	"math/big"
 	"io"
 	"bytes"
 	"fmt"
@@ -216,8 +218,35 @@ func runSTLASCII(src *choice.Source, st *Stats) (fs []Finding) {
 	if src.Chance(1, 4) {
 		long = " " + strings.Repeat("n", 100+src.Intn(700))
 	}
-	numStyle := src.Intn(4)
+	numStyle := src.Intn(5)
+	// style 4: long decimals that lie just beside the midpoint of two neighbouring
+	// float32 values.  The format holds single precision, so the value read back
+	// must be the float32 nearest to the decimal (computed here exactly with
+	// math/big); rounding through a float64 first gives the other neighbour.
+	expect := map[string]float32{}
 	num := func(x float32) string {
+		switch numStyle {
+		case 4:
+			if x != x || math.IsInf(float64(x), 0) || x == 0 || math.Abs(float64(x)) > 1e30 || math.Abs(float64(x)) < 1e-30 {
+				break
+			}
+			y := math.Nextafter32(x, float32(math.Inf(1)))
+			mid := (float64(x) + float64(y)) / 2 // exact in float64
+			tok := new(big.Float).SetPrec(400).SetFloat64(mid).Text('f', 80)
+			tok = strings.TrimRight(tok, "0")
+			if !strings.Contains(tok, ".") {
+				tok += "."
+			}
+			// one more digit far behind: just above the midpoint in magnitude
+			tok += "00000000001"
+			bf, _, err := big.ParseFloat(tok, 10, 600, big.ToNearestEven)
+			if err != nil {
+				break
+			}
+			f32, _ := bf.Float32()
+			expect[tok] = f32
+			return tok
+		}
 		switch numStyle {
 		case 1:
 			return strconv.FormatFloat(float64(x), 'E', 8, 32)
@@ -263,7 +292,24 @@ func runSTLASCII(src *choice.Source, st *Stats) (fs []Finding) {
 			fs = append(fs, Finding{"stl_ascii|styled-read-error", fmt.Sprintf("delivery %+v: %v; file starts %q", d, err, trunc(sdata))})
 			continue
 		}
-		if f := compareTris("stl_ascii|styled", tris, got, round32); f != nil {
+		want := tris
+		if numStyle == 4 {
+			want = make([]*model3d.Triangle, len(tris))
+			for i, t := range tris {
+				w := *t
+				for j, v := range t {
+					c := [3]float64{float64(float32(v.X)), float64(float32(v.Y)), float64(float32(v.Z))}
+					for a, x := range [3]float32{float32(v.X), float32(v.Y), float32(v.Z)} {
+						if e, ok := expect[num(x)]; ok {
+							c[a] = float64(e)
+						}
+					}
+					w[j] = model3d.XYZ(c[0], c[1], c[2])
+				}
+				want[i] = &w
+			}
+		}
+		if f := compareTris("stl_ascii|styled", want, got, round32); f != nil {
 			f.Msg = fmt.Sprintf("delivery %+v: %s; file starts %q", d, f.Msg, trunc(sdata))
 			fs = append(fs, *f)
 		}
